@@ -47,7 +47,9 @@ class Zygote:
             stdout=subprocess.PIPE,
             stderr=subprocess.PIPE,
             env=runner.env(hashseed),
-            cwd=runner.run_dir,
+            # an always-empty directory: with `-m` the cwd becomes sys.path[0] and the import
+            # system caches its listing, which must not depend on which sessions exist right now
+            cwd=runner.zcwd,
         )
         self.lock = threading.Lock()
         self.waiters: Dict[int, threading.Event] = {}
@@ -162,6 +164,8 @@ class Runner:
         self.run_dir = fixed
         self.pyc = os.path.join(self.run_dir, "pyc")
         os.makedirs(self.pyc)
+        self.zcwd = os.path.join(self.run_dir, "zcwd")
+        os.makedirs(self.zcwd)
         self._counter = itertools.count(1)
         self.sessions_run = 0
         self.aslr = shutil.which("setarch") is not None
